@@ -104,7 +104,7 @@ def install():
 install()
 
 ASCII_STRS = [s for s in qgen.STRS if all(ord(c) < 128 for c in s)]
-CHARS = ['a', 'b', ' ', 'c', 'y', 'x', '%', "'", 'a', 'b', 'ab', 'ba', 'a b']
+CHARS = ['a', 'b', ' ', 'c', 'y', 'x', '%', "'", 's', '_', 'a', 'b', 'b', 'c', 'ab', 'ba', 'a b']
 
 
 # ---------------------------------------------------------------------------------------------------------------------
@@ -226,11 +226,11 @@ def extra_values(var, ent, typ):
     if typ == 'str':
         concat = st.tuples(leaf, leaf).map(lambda t: ['bin', '+', t[0], t[1]])
         base = st.one_of(leaf, leaf, concat)
-        bound_a = st.one_of(st.none(), st.integers(-3, 3))
-        bound_b = st.one_of(st.none(), st.integers(-3, 4))
+        bound_a = st.one_of(st.none(), st.integers(-3, 3), st.integers(-3, -2), st.integers(-3, -2))
+        bound_b = st.one_of(st.none(), st.integers(-3, 4), st.none())
         kinds = {
             'concat': st.one_of(concat, concat, st.tuples(leaf, leaf, leaf).map(lambda t: ['bin', '+', ['bin', '+', t[0], t[1]], t[2]])),
-            'stripc': st.tuples(st.sampled_from(['strip', 'lstrip', 'rstrip']), st.one_of(base, strs), st.sampled_from(CHARS)).map(
+            'stripc': st.tuples(st.sampled_from(['strip', 'strip', 'lstrip', 'rstrip']), st.one_of(base, base, strs), st.sampled_from(CHARS)).map(
                 lambda t: ['stripc', t[0], t[1], t[2]]),
             'tostr': ints.map(lambda e: ['tostr', e]),
             'index': st.tuples(base, st.integers(-3, 2)).map(
